@@ -302,16 +302,14 @@ func (s *writerSys) Apply(op int, check bool) (what, sig string) {
 						fail("sink-error-lost", "the sink failed with %q but Flush returned %q", errSink, err)
 					}
 					s.failed = true
-					// what the failing sink took (nothing / everything / half) is all it will ever get of this flush
-					switch s.cfg.SinkMode {
-					case 1:
-						s.expected = append(s.expected, all...)
-					case 2:
-						s.expected = append(s.expected, all[:len(all)/2]...)
+					// A flush may reach the sink in one Write or in several; whatever the sink accepted before and in the failing
+					// Write (nothing / everything / half of THAT write) must be the written bytes, in order, once: a prefix of
+					// what this flush had to deliver.  It is all the sink will ever get.
+					full := append(append([]byte{}, s.expected...), all...)
+					if len(s.sink.Got) < len(s.expected) || len(s.sink.Got) > len(full) || !bytes.Equal(s.sink.Got, full[:len(s.sink.Got)]) {
+						fail("sink-content", "after the failed write the sink holds %d bytes that are not a prefix of the %d bytes written so far (first difference at %d)", len(s.sink.Got), len(full), firstDiff(s.sink.Got, full))
 					}
-					if !bytes.Equal(s.sink.Got, s.expected) {
-						fail("sink-content", "after the failed write the sink holds %d bytes, expected %d (what it accepted of the failed write, nothing more)", len(s.sink.Got), len(s.expected))
-					}
+					s.expected = append([]byte{}, s.sink.Got...)
 					return
 				}
 				if err != nil {
